@@ -29,10 +29,15 @@ RULE = ('correspondence: exhaustive small grid for combine_limit_and_offset (Non
         'integer-row queries executed on SQLite and evaluated in the model; search: the same chain language on four result shapes, judged against Python list operations on list(q). '
         'non-trivial = the chain contains at least one rewriting op or a non-identity window; distinct = distinct canonical chains / inputs')
 
-HEADER = ('Require Import PonyV.Base.PyBase PonyV.Base.Seg PonyV.Gen.C24Window PonyV.Model.C24Query.\nOpen Scope Z_scope.\n'
+HEADER = ('Require Import PonyV.Base.PyBase PonyV.Base.Seg PonyV.Gen.C24Window PonyV.Model.C24Query PonyV.Model.C24More.\nOpen Scope Z_scope.\n'
           'Definition oz_eq := oz_eqb.\n'
           'Definition roz_eqb (a b : result (option Z)) : bool := match a, b with Ok x, Ok y => oz_eqb x y | Err i, Err j => Nat.eqb i j | _, _ => false end.\n'
-          'Definition idk : list (Z -> Z) := [fun x => x].\n')
+          'Definition idk : list (Z -> Z) := [fun x => x].\n'
+          'Definition idkk : list (Z * Z -> Z) := [fun x => fst x; fun x => snd x].\n'
+          'Fixpoint zzlist_eqb (a b : list (Z * Z)) : bool := match a, b with [], [] => true | x :: r, y :: s => zz_eqb x y && zzlist_eqb r s | _, _ => false end.\n'
+          'Definition rzzlist_eqb (a b : result (list (Z * Z))) : bool := match a, b with Ok x, Ok y => zzlist_eqb x y | Err i, Err j => Nat.eqb i j | _, _ => false end.\n'
+          'Definition rozz_eqb (a b : result (option (Z * Z))) : bool := match a, b with Ok None, Ok None => true | Ok (Some x), Ok (Some y) => zz_eqb x y | Err i, Err j => Nat.eqb i j | _, _ => false end.\n'
+          'Definition avg_matches (r : result aggval) (n d : Z) : bool := match r with Ok (VRat s c) => s * d =? n * c | _ => false end.\n')
 
 
 def copt(x):
@@ -98,9 +103,12 @@ PRED_COQ = {'a>1': '(1 <? %s)', 'a<=2': '(%s <=? 2)', 'a>100': '(100 <? %s)', 'a
 
 def fld(kind, data, f):
     """Coq expression (in variable x) for field f of a row of this kind"""
-    if kind == 'a':
-        if f != 'a': raise Unmodelled(f)
+    if kind in ('a', 'name'):
+        if f != kind: raise Unmodelled(f)
         return 'x'
+    if kind == 'pair':
+        if f not in ('name', 'a'): raise Unmodelled(f)
+        return '(fst x)' if f == 'name' else '(snd x)'
     if f == 'id': return 'x'
     return '(%s_%s x)' % ({'a': 'A', 'name': 'N'}[f], data)
 
@@ -111,9 +119,17 @@ def pred_coq(kind, data, pname):
 def model_chain(chain):
     """Coq terms (query, terminal bool builder) for a chain over kind 'a' or 'ent'. Raises Unmodelled."""
     kind, data = chain['base'], chain['data']
-    if kind not in ('a', 'ent'): raise Unmodelled(kind)
     rows = C.DATASETS[data]
-    if kind == 'a':
+    keepc = pred_coq(kind, data, chain['where']) if chain.get('where') and C.applicable(kind, C.PREDS[chain['where']][0]) else None
+    if chain.get('where') and keepc is None:
+        # the base query's WHERE is on a column the projection does not keep: fold it into the rows
+        rows = [r for r in rows if C.PREDS[chain['where']][1]({'name': r[0], 'a': r[1]}[C.PREDS[chain['where']][0]])]
+    if kind == 'name':
+        q = 'zquery %s %s false true None no_window' % (clistz([ord(r[0]) for r in rows]), keepc or '(fun _ => true)')
+    elif kind == 'pair':
+        rowsc = '[' + '; '.join('(%d, %s)' % (ord(r[0]), cz(r[1])) for r in rows) + ']' if rows else '(@nil (Z * Z))'
+        q = 'zzquery %s %s false true None no_window' % (rowsc, keepc or '(fun _ => true)')
+    elif kind == 'a':
         q = 'zquery %s %s false true None no_window' % (clistz([r[1] for r in rows]),
                                                          pred_coq(kind, data, chain['where']) if chain.get('where') else '(fun _ => true)')
     else:
@@ -194,7 +210,19 @@ def real_chain_value(chain):
 
 
 def ids(v):
-    return [x[1] if isinstance(x, list) else x for x in v]
+    return [one(x) for x in v]
+
+def one(x):
+    if isinstance(x, list): return x[1] if x and x[0] == 'P' else (ord(x[0]), x[1])
+    if isinstance(x, str): return ord(x)
+    return x
+
+def cval(x):
+    return '(%d, %s)' % (x[0], cz(x[1])) if isinstance(x, tuple) else cz(x)
+
+def clistv(xs):
+    if not xs: return '[]'
+    return '[' + '; '.join(cval(x) for x in xs) + ']'
 
 def chain_bool(chain):
     """Coq bool: the model's value of the chain's terminal equals the value the implementation returned."""
@@ -209,32 +237,38 @@ def chain_bool(chain):
         if real not in EXC_CODE: raise Unmodelled(real)
         err = '(Err %d%%nat)' % EXC_CODE[real]
     else: err = None
-    def lst(v): return '(Ok %s)' % clistz(ids(v))
-    def item(v):
-        if v is None: return None
-        return v[1] if isinstance(v, list) else v
-    if t == 'list': return 'rzlist_eqb (Ok (q_list Z.eqb (%s))) %s' % (q, err or lst(real)), real
-    if t == 'len': return 'rz_eqb (Ok (zlen (q_list Z.eqb (%s)))) %s' % (q, err or '(Ok %s)' % cz(real)), real
-    if t == 'slice': return 'rzlist_eqb (q_getitem Z.eqb (%s) %s %s) %s' % (q, copt(term[1]), copt(term[2]), err or lst(real)), real
-    if t == 'limit': return 'rzlist_eqb (q_limit Z.eqb (%s) %s %s) %s' % (q, copt(term[1]), copt(term[2]), err or lst(real)), real
-    if t == 'page': return 'rzlist_eqb (q_page Z.eqb (%s) %s %s) %s' % (q, cz(term[1]), cz(term[2]), err or lst(real)), real
-    if t == 'first': return 'roz_eqb (Ok (q_first Z.eqb idk (%s))) %s' % (q, err or '(Ok %s)' % copt(item(real))), real
-    if t == 'get': return 'roz_eqb (q_get Z.eqb (%s)) %s' % (q, err or '(Ok %s)' % copt(item(real))), real
+    pair = kind == 'pair'
+    EQ = 'zz_eqb' if pair else 'Z.eqb'
+    LEQ, OEQ, DFLT = ('rzzlist_eqb', 'rozz_eqb', 'idkk') if pair else ('rzlist_eqb', 'roz_eqb', 'idk')
+    def lst(v): return '(Ok %s)' % clistv(ids(v))
+    def oitem(v): return 'None' if v is None else '(Some %s)' % cval(one(v))
+    if t == 'list': return '%s (Ok (q_list %s (%s))) %s' % (LEQ, EQ, q, err or lst(real)), real
+    if t == 'len': return 'rz_eqb (Ok (zlen (q_list %s (%s)))) %s' % (EQ, q, err or '(Ok %s)' % cz(real)), real
+    if t == 'slice': return '%s (q_getitem %s (%s) %s %s) %s' % (LEQ, EQ, q, copt(term[1]), copt(term[2]), err or lst(real)), real
+    if t == 'limit': return '%s (q_limit %s (%s) %s %s) %s' % (LEQ, EQ, q, copt(term[1]), copt(term[2]), err or lst(real)), real
+    if t == 'page': return '%s (q_page %s (%s) %s %s) %s' % (LEQ, EQ, q, cz(term[1]), cz(term[2]), err or lst(real)), real
+    if t == 'first': return '%s (Ok (q_first %s %s (%s))) %s' % (OEQ, EQ, DFLT, q, err or '(Ok %s)' % oitem(real)), real
+    if t == 'get': return '%s (q_get %s (%s)) %s' % (OEQ, EQ, q, err or '(Ok %s)' % oitem(real)), real
     if t == 'exists':
         if err: raise Unmodelled('exists raised')
-        return 'Bool.eqb (q_exists Z.eqb (%s)) %s' % (q, 'true' if real else 'false'), real
+        return 'Bool.eqb (q_exists %s (%s)) %s' % (EQ, q, 'true' if real else 'false'), real
+    if t == 'count' and pair: return 'rz_eqb (q_count_pair None (%s)) %s' % (q, err or '(Ok %s)' % cz(real)), real
+    if pair: raise Unmodelled(t)
     if t == 'count' and kind == 'ent': return 'rz_eqb (q_count_rows (%s)) %s' % (q, err or '(Ok %s)' % cz(real)), real
     if t in ('count', 'sum', 'min', 'max', 'avg'):
         f = {'count': 'ACount', 'sum': 'ASum', 'min': 'AMin', 'max': 'AMax', 'avg': 'AAvg'}[t]
         if err: val = err
         elif real is None: val = '(Ok VNone)'
-        elif t == 'avg': raise Unmodelled('float')          # handled by avg_bool below
-        else: val = '(Ok (VInt %s))' % cz(real)
+        elif t == 'avg':
+            from fractions import Fraction
+            fr = Fraction(real[1]).limit_denominator(10 ** 6)         # exact for the mean of a few small integers
+            return 'avg_matches (q_aggregate AAvg None (%s)) %s %s' % (q, cz(fr.numerator), cz(fr.denominator)), real
+        else: val = '(Ok (VInt %s))' % cz(one(real))
         return 'raggval_eqb (q_aggregate %s None (%s)) %s' % (f, q, val), real
     if t == 'group_concat':
         if err: val = err
         elif real is None: val = '(Ok (@nil Z))'
-        else: val = '(Ok %s)' % clistz([int(x) for x in real.split(',')])
+        else: val = '(Ok %s)' % clistz([int(x) if kind == 'a' else ord(x) for x in real.split(',')])
         # SQL group_concat of no rows is NULL; the model's list of parts is then empty
         return 'rzlist_eqb (q_group_concat None (%s)) %s' % (q, val), real
     if t == 'delete':
@@ -250,6 +284,63 @@ def avg_bool(chain):
     expressed with the integer numerator real*den rounded -- only used when the value is an exact binary fraction)."""
     raise Unmodelled('avg')
 
+
+
+# ------------------------------------------------------------------------------------------------ Oracle (text level, not executable here)
+
+_ora = {}
+
+def oracle_sql(tl, to, l, o):
+    """SQL text and LIMIT section OraBuilder produces for a query whose translator carries (tl, to) and that is fetched with (l, o)."""
+    from pony import orm
+    if 'db' not in _ora:
+        mdb = vlib.mock_database('oracle')
+        class OP(mdb.Entity):
+            a = orm.Required(int)
+        mdb.generate_mapping()
+        _ora['db'] = mdb; _ora['OP'] = OP
+    mdb, OP = _ora['db'], _ora['OP']
+    with orm.db_session:
+        tr = orm.select('p for p in OP', {'OP': OP}).order_by(OP.id)._translator.deepcopy()
+        tr.limit, tr.offset = tl, to
+        ast_, _ = tr.construct_sql_ast(l, o)
+        sql, _ = mdb.provider.ast2sql(ast_)
+    secs = [x for x in ast_ if isinstance(x, list) and x and x[0] == 'LIMIT']
+    sec = None if not secs else (secs[0][1], secs[0][2] if len(secs[0]) > 2 else None)
+    return sql, sec
+
+def oracle_shape(sql):
+    """read the ROWNUM form back from the SQL text: ('plain',) | ('le', n) | ('win', n|None, m)"""
+    import re
+    le = re.findall(r'WHERE ROWNUM <= (\d+)', sql)
+    gt = re.findall(r'WHERE "row-num" > (\d+)', sql)
+    if len(le) > 1 or len(gt) > 1 or ('ROWNUM' in sql and not le and not gt): raise Unmodelled('oracle text')
+    if not le and not gt: return ('plain',)
+    if gt: return ('win', int(le[0]) if le else None, int(gt[0]))
+    return ('le', int(le[0]))
+
+def oracle_rows(shape, R):
+    """documented ROWNUM semantics on an ordered row list"""
+    if shape[0] == 'plain': return list(R)
+    if shape[0] == 'le': return R[:shape[1]]
+    rows = R if shape[1] is None else R[:shape[1]]
+    return rows[shape[2]:]
+
+def oracle_failure(tl, to, l, o):
+    from pony.orm.sqltranslation import combine_limit_and_offset
+    sql, sec = oracle_sql(tl, to, l, o)
+    shape = oracle_shape(sql)
+    R = list(range(7))
+    got = oracle_rows(shape, R)
+    want = R
+    for (ll, oo) in ((tl, to), (l, o)):
+        lo = 0 if oo is None else oo
+        want = want[lo:] if ll is None else want[lo:lo + ll]
+    if got == want: return None
+    cl, co = combine_limit_and_offset(tl, to, l, o)
+    key = 'oracle-limit-zero-returns-all-rows' if cl == 0 and shape == ('plain',) else 'unlisted:oracle-window:%s' % (shape[0],)
+    return Failure(key, 'oracle (documented ROWNUM semantics): translator window %r fetched with %r builds %r, which selects %r of 0..6; list semantics gives %r'
+                   % ((tl, to), (l, o), ' '.join(sql.split())[-90:], got, want), {'oracle_window': [tl, to, l, o]})
 
 # ------------------------------------------------------------------------------------------------ chain generators
 
@@ -434,14 +525,26 @@ def correspondence(ctx):
                 add('limit_section', 'osection_eqb (limit_section %s (combine %s %s)) %s' % (dname, cwin(tl, to), cwin(l, o), real), [prov, tl, to, l, o], real,
                     nt=any(x is not None for x in (tl, to, l, o)))
 
+    # (4b) Oracle: the section the builder receives and the ROWNUM form it writes (SQL text), vs ora_section / ora_select
+    for tl, to, l, o in itertools.product([None, 0, 2], [None, 0, 3], [None, 0, 1, 4], [None, 0, 2]):
+        try:
+            sql, sec = oracle_sql(tl, to, l, o)
+            shape = oracle_shape(sql)
+        except Exception as e:
+            disagreements.append({'what': 'oracle SQL could not be built / read', 'input': [tl, to, l, o], 'impl': '%s: %s' % (type(e).__name__, e)}); continue
+        secc = 'None' if sec is None else '(Some %s)' % cwin(sec[0], sec[1])
+        shc = {'plain': lambda: 'OraPlain', 'le': lambda: '(OraLe %s)' % cz(shape[1]), 'win': lambda: '(OraWin %s %s)' % (copt(shape[1]), cz(shape[2]))}[shape[0]]()
+        add('oracle', 'osection_eqb (ora_section (combine %s %s)) %s && ora_shape_eqb (ora_select %s) %s' % (cwin(tl, to), cwin(l, o), secc, secc, shc),
+            ['oracle', tl, to, l, o], [sec, shape], nt=any(x is not None for x in (tl, to, l, o)))
+
     # (5) method chains on integer-row queries: model vs real Pony on SQLite
     skipped = {}
     n_chain = 0
-    if ctx.thorough: chains = gen_chains(rng, ['a', 'ent'], list(C.DATASETS), 1, 20000)
-    else: chains = itertools.chain(gen_chains(rng, ['a', 'ent'], ['dups'], 1, 0, wheres=(None,)), gen_chains(rng, ['a', 'ent'], ['seven', 'empty', 'one'], 0, 1500))
-    chains = itertools.chain(helper_chains(['a', 'ent'], ['seven']), chains)
+    if ctx.thorough: chains = gen_chains(rng, ['a', 'ent', 'name', 'pair'], list(C.DATASETS), 1, 20000)
+    else: chains = itertools.chain(gen_chains(rng, ['a', 'ent', 'name', 'pair'], ['dups'], 1, 0, wheres=(None,)), gen_chains(rng, ['a', 'ent', 'name', 'pair'], ['seven', 'empty', 'one'], 0, 1500))
+    chains = itertools.chain(helper_chains(['a', 'ent', 'pair'], ['seven']), chains)
     for ch in chains:
-        if ch['term'][0] in ('random', 'avg'): continue
+        if ch['term'][0] == 'random': continue
         try:
             b, real = chain_bool(ch)
         except C.Unsupported:
@@ -550,6 +653,16 @@ def search(ctx, deep):
             f = failure_of(ch, mism[0])         # later mismatches of one chain are consequences of the first
             per_key[f.key] = per_key.get(f.key, 0) + 1
             if per_key[f.key] == 1: failures.append(f)
+    for tl, to, l, o in itertools.product([None, 0, 2], [None, 0, 3], [None, 0, 1, 4], [None, 0, 2]):
+        try:
+            f = oracle_failure(tl, to, l, o)
+        except Exception as e:
+            f = Failure('unlisted:oracle-window:raises', 'oracle: building the SQL for window %r / %r raised %s: %s' % ((tl, to), (l, o), type(e).__name__, e), {'oracle_window': [tl, to, l, o]})
+        evals += 1
+        dist['oracle_windows'] = dist.get('oracle_windows', 0) + 1
+        if f is not None:
+            per_key[f.key] = per_key.get(f.key, 0) + 1
+            if per_key[f.key] == 1: failures.append(f)
     dist['failing_chains_by_key'] = per_key
     return Search(evaluations=evals, failures=failures, nontrivial=len(nontriv), distribution=dist, exhaustive=True,
                   samples=[{'chain': {'data': 'dups', 'base': 'ent', 'where': None, 'ops': [['order', 'id'], ['nest', 2, 1, None, None]], 'term': ['slice', 1, None]},
@@ -557,6 +670,7 @@ def search(ctx, deep):
 
 
 def replay(ctx, data):
+    if 'oracle_window' in data: return oracle_failure(*data['oracle_window'])
     chain = data['chain']
     mism, _ = C.check_chain(chain)
     if not mism: return None
@@ -564,12 +678,16 @@ def replay(ctx, data):
 
 
 LEVEL_TEXT = ('Machine-checked proof (Coq 8.16.1), for all row lists and all non-negative bounds, that the window arithmetic of /repo (combine_limit_and_offset, '
-              'Query.__getitem__, page, limit -- re-translated from source on every run) selects exactly the Python slice R[a:b] / page / nested window of the full result, '
-              'and that get/exists/first/filter/order_by/distinct/count/sum/min/max/avg/group_concat/bulk delete in a list-semantics model of the query pipeline agree '
-              'with the Python operation on list(q) on the exact complement of eleven recorded defect classes (each refuted by a witness in Findings/C24.v); '
-              'the model is compared with real Pony on SQLite on generated method chains by vm_compute, and a chain oracle against Python list operations searches for failing inputs.')
-LEVEL_NOTE = ('Trusted: Coq kernel + vm_compute; py2coq translator; the correspondence harness; list-semantics models of LIMIT/OFFSET, DISTINCT, ORDER BY and the SQL aggregates '
-              '(validated against SQLite); PostgreSQL/MySQL "no limit" spellings by documentation. Partial: first() after an explicit distinct(), joins/GROUP BY/prefetch, '
-              'avg as a float, and the KeyError of nesting over a keyword-filtered query are covered by the search only.')
+              'Query.__getitem__, page, limit -- re-translated from source on every run) selects exactly the Python slice R[a:b] / page / nested window of the full result; that '
+              'get/exists/first/random/filter/order_by/distinct/count/sum/min/max/avg/group_concat/bulk delete in a list-semantics model of the query pipeline agree with the Python operation on '
+              'list(q) on the exact complement of the recorded defect classes (each refuted by a witness); that chained lambda steps sharing one code object read their own captured values '
+              '(filter-number rule scanned from Query._process_lambda); and a characterisation of the limited-subquery family: the code MERGES a limited subquery into the outer query, which '
+              'equals the nested list semantics iff the combined window keeps every row or none (sufficiency for all inputs, and for every other window a constructed counterexample). '
+              'SQLite/PostgreSQL/MySQL LIMIT sections and Oracle\'s ROWNUM form (text level) mean the window, except Oracle LIMIT 0 (finding). The model is compared with real Pony on SQLite on '
+              'generated method chains over entity, integer, string and tuple queries by vm_compute; a chain oracle against Python list operations searches for failing inputs.')
+LEVEL_NOTE = ('Trusted: Coq kernel + vm_compute; py2coq translator and source scans; the correspondence harness; list-semantics models of LIMIT/OFFSET, DISTINCT, ORDER BY and the SQL aggregates '
+              '(validated against SQLite); PostgreSQL/MySQL/Oracle by documentation only (no server). Partial: first() after distinct() is proved when the ORDER BY keys identify the row; avg is '
+              'an exact (sum, count) pair in the model and compared with the float by cross-multiplication; joins/GROUP BY/prefetch, projecting nests and the KeyError of nesting over a '
+              'keyword-filtered query are covered by the search only.')
 TECHNIQUE = 'Coq proof (seg normal form + lia, stable-sort/dedup lemmas) over functions regenerated from source by py2coq; vm_compute correspondence of method chains; exhaustive small-scope chain oracle'
 DESIGN_REF = 'DESIGN.md section 5, C24'
